@@ -1016,7 +1016,7 @@ ASSUMPTIONS = [
     'where neither blankness nor a token of a table depends on it)',
     'uber_open_rmode (potentials package) presents text, bytes and path input as a fresh binary stream at position 0, '
     'passes an open binary stream through as it stands (position kept, not closed) and refuses a stream opened in text '
-    'mode with ValueError',
+    'mode with ValueError (model: Input / readInput; theorem read_input_forms is conditional on this)',
     'pandas.read_csv leaves a binary stream it was given at its end (logs below the 256 KiB chunk size of the C parser); '
     'only the position reported after a read depends on this (correspondence), no theorem and no oracle clause does',
 ]
@@ -1044,7 +1044,10 @@ MANIFEST = {
             '(Generated/LogSource.lean) and proved equal to the model (18 gen_ obligations); records as objects (keys, '
             'sim[key] refuses iff the key was not set), the merge loop as coded with its refusals exactly (ValueError iff '
             'unsupported style and at least two records, IndexError iff empty selection), call forms with arguments left out, '
-            'Log(text) of a printed log = the printed runs, numeric rows need no quietness hypothesis.',
+            'Log(text) of a printed log = the printed runs; printer o reader = identity on the simple log grammar with ANY rows of '
+            'numbers (ctor_grammar); the refusals of flatten each as an iff (flatten_refusals_iff); read_tables restated about '
+            'the regenerated init / step / finish (gen_read_tables); text = file = stream as input forms, text-mode stream '
+            'refused (read_input_forms, under the recorded assumption on uber_open_rmode).',
     'note': 'Trusted: Lean kernel + propext/Classical.choice/Quot.sound; pandas read_csv/concat behaviour as stated in '
             'ASSUMPTIONS (exercised on every case); the Python log synthesiser/oracle. Performance tables are compared in '
             'the correspondence only.',
